@@ -39,7 +39,11 @@ func newProcRunner(cmd *exec.Cmd) (*procRunner, error) {
 }
 func (p *procRunner) Start(context.Context) error { return p.cmd.Start() }
 func (p *procRunner) Wait(context.Context) error  { return p.cmd.Wait() }
-func (p *procRunner) Kill(context.Context) error {
+func (p *procRunner) Kill(ctx context.Context) error {
+	// like a runner that reaches its process through an API: a request made with a finished context is not carried out
+	if err := ctx.Err(); err != nil {
+		return err
+	}
 	if p.cmd.Process != nil {
 		p.cmd.Process.Kill()
 	}
@@ -80,6 +84,10 @@ func genClientOps(o opts) []coCase {
 		{Launch: "cmd", Proto: "grpc", Ops: []int{0, 1, 6, 0, 2, 3, 1, 6}, Kind: "directed-restart-after-kill"},
 		{Launch: "cmd", Proto: "netrpc", FirstFails: true, Ops: []int{0, 0, 2, 1, 6, 0}, Kind: "directed-retry-cmd"},
 		{Launch: "runnerfunc", Proto: "netrpc", FirstFails: true, Ops: []int{0, 0, 2}, Kind: "directed-retry-runnerfunc"},
+		// Kill after a failed first start must not launch anything (and neither must the accessors)
+		{Launch: "runnerfunc", Proto: "netrpc", FirstFails: true, Ops: []int{0, 6, 6, 3, 4, 5}, Kind: "directed-kill-after-failed-start"},
+		{Launch: "runnerfunc", Proto: "grpc", FirstFails: true, Ops: []int{0, 5, 6}, Kind: "directed-kill-after-failed-start"},
+		{Launch: "cmd", Proto: "grpc", FirstFails: true, Ops: []int{0, 6, 6}, Kind: "directed-kill-after-failed-start"},
 		{Launch: "runnerfunc", Proto: "grpc", Ops: []int{1, 1, 1, 1, 1, 1, 1, 1}, Concurrent: true, Kind: "concurrent-client"},
 		{Launch: "cmd", Proto: "netrpc", Ops: []int{1, 1, 1, 1, 1, 1, 1, 1}, Concurrent: true, Kind: "concurrent-client"},
 		{Launch: "runnerfunc", Proto: "netrpc", Ops: []int{0, 0, 0, 0, 1, 1, 2, 2}, Concurrent: true, Kind: "concurrent-mix"},
